@@ -1,5 +1,5 @@
 """property id -> check function(prop, tier, replay) -> exit code"""
-from . import router, reg, selector, framing, rpc, transcode, registry_chk, mount, deadline, proxy
+from . import router, reg, selector, framing, rpc, transcode, registry_chk, mount, deadline, proxy, conc
 
 CHECKS = {
     "C01": router.run,
@@ -10,6 +10,7 @@ CHECKS = {
     "C05": rpc.run,
     "C06": rpc.run,
     "C08": rpc.run,
+    "C13": conc.run,
     "C14": rpc.run,
     "C18": rpc.run,
     "C10": proxy.run,
